@@ -11,11 +11,12 @@ replayed: coefficients `C := Nat` (index on the trajectory, `step = (· + 1)`, `
 ```
 fit <cls> <maxIter:int> <tol:bits> <hasC:0|1> <cbs> <old> <diff bits …>
     cbs : `-` (argument not given: class default) | `=item,item,…` (`=` alone: empty list)
-    item: deviance | diffs | accuracy | coef | u/<name>/<start>/<end>
+    item: deviance | diffs | accuracy | coef | u/<name>/<start>/<end>[/<ret>]
+          ret: `v` hooks return a value (default) | `n` always None | `e` None in even iterations
           start/end: `-` no such hook | `<args>` | `<args>~<locals>`; args/locals: `.` none | names joined by `+`
     old : `-` | key*count,key*count      (entries already in logs_ before this fit)
   → ValueError | AssertionError | short | ok iters=k coef=k printed=b stats=b logs key=e|e|… key=…
-    entries: old<i>  dev@k  acc@k  coef@k  diff:<bits>  us:<name>@k  ue:<name>@k>k':<bits>
+    entries: none (a hook returned None)  old<i>  dev@k  acc@k  coef@k  diff:<bits>  us:<name>@k  ue:<name>@k>k':<bits>
 ctor <cls> <arg>            → <accepts 0|1> <forwards 0|1>
 defaults <cls>              → names
 effective <cls> <cbs>       → names of the callbacks the optimiser will see
@@ -51,19 +52,28 @@ def parseNames? (s : String) : Option (Option (List String × List String)) :=
         some (some (a, l))
     | _ => none
 
+/-- what a user hook returns in iteration `k`: `v` a value, `n` always `None`, `e` `None` on even `k`.
+A `None` return is a log entry like any other (`logs_[key].append(None)`). -/
+def retVal (ret : String) (k : Nat) (v : String) : String :=
+  if ret == "n" then "none" else if ret == "e" && k % 2 == 0 then "none" else v
+
+def mkUser (name st en ret : String) : Option CB := do
+  if name == "" then none
+  if !(ret == "v" || ret == "n" || ret == "e") then none
+  let st ← parseNames? st
+  let en ← parseNames? en
+  some { name := name
+         onStart := st.map (fun ex =>
+           ⟨ex.1, fun k c => retVal ret k (s!"us:{name}@{k}" ++ (if k == c then "" else "!")), ex.2⟩)
+         onEnd := en.map (fun ex =>
+           ⟨ex.1, fun k c c' d => retVal ret k
+              (s!"ue:{name}@{c}>{c'}:" ++ showFloat d ++ (if k == c then "" else "!")), ex.2⟩) }
+
 def parseItem? (s : String) : Option CB :=
   match s.splitOn "/" with
   | [b] => (Builtin.ofName? b).map (builtin obs)
-  | ["u", name, st, en] => do
-      if name == "" then none
-      let st ← parseNames? st
-      let en ← parseNames? en
-      some { name := name
-             onStart := st.map (fun ex =>
-               ⟨ex.1, fun k c => s!"us:{name}@{k}" ++ (if k == c then "" else "!"), ex.2⟩)
-             onEnd := en.map (fun ex =>
-               ⟨ex.1, fun k c c' d => s!"ue:{name}@{c}>{c'}:" ++ showFloat d ++ (if k == c then "" else "!"),
-                ex.2⟩) }
+  | ["u", name, st, en] => mkUser name st en "v"
+  | ["u", name, st, en, ret] => mkUser name st en ret
   | _ => none
 
 /-- `-` ↦ none (argument not given) ; `=a,b` ↦ some [a, b] -/
